@@ -82,10 +82,45 @@ CalleeProgs == { NCall(f, a) : f \in Callees, a \in FewArgs }
                 \cup { NCall(NVar(h), <<NObject(<< <<NStr(ka), NNum(IntV(1))>> >>), f>>) : f \in Callees, h \in {"each", "sift"} }
                 \cup { NPartial(f, <<NPlace>>) : f \in Callees } \cup { NCall(NPartial(f, <<NPlace>>), a) : f \in Callees, a \in {<<>>, <<NStr(<<97, 66>>)>>} }
 
+\* function values of every Go representation followed by a name step: a function has no members, whatever the
+\* implementation calls the fields of the struct behind it; and what such a step yields used as data
+GoFieldNames == { <<110, 97, 109, 101>>, <<112, 97, 114, 97, 109, 115>>, <<102, 110>>, <<97, 114, 103, 115>>, <<99, 97, 108, 108, 97, 98, 108, 101, 115>>, <<112, 97, 114, 97, 109, 78, 97, 109, 101, 115>>, <<98, 111, 100, 121>>, <<112, 97, 116, 116, 101, 114, 110>>, <<117, 112, 100, 97, 116, 101, 115>>, <<100, 101, 108, 101, 116, 101, 115>>, <<114, 101>>, <<103, 114, 111, 117, 112, 115>>, <<109, 97, 116, 99, 104>>, <<115, 116, 97, 114, 116>>, <<101, 110, 100>>, <<110, 101, 120, 116>>, <<101, 110, 118>>, <<99, 111, 110, 116, 101, 120, 116>>, <<116, 121, 112, 101, 100>>, <<105, 115, 86, 97, 114, 105, 97, 100, 105, 99>>, <<117, 110, 100, 101, 102, 105, 110, 101, 100, 72, 97, 110, 100, 108, 101, 114>>, <<116>>, <<86, 97, 108, 117, 101>>, <<84, 121, 112, 101>> }
+FnValues == { NVar("sum"), NVar("substringBefore"), NLambda(<<"x">>, NVar("x")), NPartial(NVar("substring"), <<NPlace, NNum(IntV(1))>>),
+              NBlock(<<NApply(NVar("uppercase"), NVar("lowercase"))>>), NTransform(NPath(<<NName(ka)>>, FALSE), NObject(<< <<NStr(kb), NNum(IntV(1))>> >>), NNone),
+              [k |-> "TypedLambda", params |-> <<"x">>, body |-> NVar("x"), short |-> FALSE, sig |-> <<[ty |-> 2, opt |-> 0, sub |-> <<>>]>>, sigout |-> <<>>],
+              NVar("millis") }
+FieldOf(f, nm) == NPath(<<f, NName(nm)>>, FALSE)
+FnFieldProgs == UNION { LET X == FieldOf(f, nm) IN
+                  { X, NPred(X, <<NNum(IntV(0))>>), NPred(NBlock(<<X>>), <<NBool(TRUE)>>), NPred(X, <<NPath(<<NName(ka)>>, FALSE)>>),
+                    NSort(NBlock(<<X>>), <<[dir |-> "", e |-> NVar("")]>>), NSort(X, <<[dir |-> "", e |-> NPath(<<NName(ka)>>, FALSE)]>>),
+                    NCmpOp("=", X, X), NCmpOp("!=", NBlock(<<X>>), NBlock(<<X>>)),
+                    NCall(NVar("string"), <<X>>), NCall(NVar("count"), <<X>>), NCall(NVar("append"), <<X, X>>), NCall(NVar("reverse"), <<X>>), NCall(NVar("type"), <<X>>),
+                    NCall(NVar("map"), <<X, NVar("string")>>), NArray(<<X>>), NObject(<< <<NStr(ka), X>> >>), NPath(<<f, NName(nm), NName(<<86, 97, 108, 117, 101>>)>>, FALSE),
+                    NPred(NPath(<<f, NName(nm)>>, TRUE), <<NNum(IntV(0))>>),
+                    NApply(NBlock(<<X>>), NTransform(NVar(""), NObject(<< <<NStr(kb), NNum(IntV(1))>> >>), NNone)) } : f \in FnValues, nm \in GoFieldNames }
+
+\* a function value that went through a library function (which may hand back a copy) is still that function:
+\* called directly, composed with ~>, applied with ~>, and as data
+Idf == NLambda(<<"g">>, NVar("g"))
+Through(f) == { NPred(NCall(NVar("distinct"), <<NArray(<<f>>)>>), <<NNum(IntV(0))>>), NPred(NCall(NVar("map"), <<NArray(<<f>>), Idf>>), <<NNum(IntV(0))>>),
+                NPred(NCall(NVar("map"), <<f, Idf>>), <<NNum(IntV(0))>>), NPred(NCall(NVar("filter"), <<f, NVar("exists")>>), <<NNum(IntV(0))>>),
+                NCall(NVar("single"), <<f, NVar("exists")>>), NPred(NCall(NVar("sort"), <<f>>), <<NNum(IntV(0))>>),
+                NCall(NVar("reduce"), <<f, NLambda(<<"a", "b">>, NVar("b")), NNum(IntV(1))>>), NPred(NCall(NVar("reverse"), <<NArray(<<f>>)>>), <<NNum(IntV(0))>>),
+                NPred(NCall(NVar("append"), <<NArray(<<f>>), NArray(<<>>)>>), <<NNum(IntV(0))>>), NPred(NCall(NVar("shuffle"), <<NArray(<<f>>)>>), <<NNum(IntV(0))>>),
+                NCall(NVar("lookup"), <<NObject(<< <<NStr(ka), f>> >>), NStr(ka)>>), NPath(<<NCall(NVar("merge"), <<NArray(<<NObject(<< <<NStr(ka), f>> >>)>>)>>), NName(ka)>>, FALSE),
+                NPred(NCall(NVar("each"), <<NObject(<< <<NStr(ka), f>> >>), Idf>>), <<NNum(IntV(0))>>),
+                NPath(<<NCall(NVar("sift"), <<NObject(<< <<NStr(ka), f>> >>), NVar("exists")>>), NName(ka)>>, FALSE),
+                NPred(NArray(<<f>>), <<NNum(IntV(0))>>), NPath(<<NObject(<< <<NStr(ka), f>> >>), NName(ka)>>, FALSE) }
+FewFns == { NVar("sum"), NVar("count"), NLambda(<<"x">>, NVar("x")), NPartial(NVar("append"), <<NPlace, NNum(IntV(1))>>), NBlock(<<NApply(NVar("sum"), NVar("string"))>>) }
+NumsArg == NArray(<<NNum(IntV(1)), NNum(IntV(2))>>)
+ThroughProgs == UNION { { NCall(t, <<NumsArg>>), NCall(NBlock(<<NApply(t, NVar("string"))>>), <<NumsArg>>), NApply(NumsArg, t), NCall(NVar("type"), <<t>>),
+                          NCall(NVar("map"), <<NArray(<<NumsArg>>), t>>), NBlock(<<NAssign("f", t), NCall(NVar("f"), <<NumsArg>>)>>) } : t \in UNION {Through(f) : f \in FewFns} }
+
 Init == /\ \/ \E fn \in Fns, al \in ArgLists : case = MkCase(CallOf(fn, al), Doc)
            \/ \E p \in CalleeProgs : case = MkCase(p, Doc)
            \/ \E p \in RecProgs, a \in RecArrays : case = MkCase(p, a)
            \/ \E p \in DataProgs : case = MkCase(p, Doc)
+           \/ \E p \in FnFieldProgs \cup ThroughProgs : case = MkCase(p, Doc)
         /\ out = Pending
 Next == EvaluateCase
 Spec == Init /\ [][Next]_mcvars
